@@ -1,0 +1,50 @@
+//go:build verif
+
+package broker
+
+import (
+	"net"
+	"sync/atomic"
+
+	"github.com/emitter-io/emitter/internal/message"
+	"github.com/emitter-io/emitter/internal/provider/storage"
+	"github.com/emitter-io/emitter/internal/service/cluster"
+	"github.com/emitter-io/emitter/internal/service/keygen"
+	"github.com/emitter-io/emitter/internal/service/presence"
+	"github.com/emitter-io/emitter/internal/service/pubsub"
+)
+
+// VerifAttach attaches a transport as an accepted client connection (what onAcceptConn does)
+// and returns the connection object.
+func (s *Service) VerifAttach(t net.Conn) *Conn {
+	conn := s.newConn(t, s.Config.Limit.ReadRate)
+	go conn.Process()
+	return conn
+}
+
+// VerifAccept is exactly onAcceptConn.
+func (s *Service) VerifAccept(t net.Conn) { s.onAcceptConn(t) }
+
+// VerifTrie returns the subscription trie.
+func (s *Service) VerifTrie() *message.Trie { return s.subscriptions }
+
+// VerifCluster returns the swarm (may be nil).
+func (s *Service) VerifCluster() *cluster.Swarm { return s.cluster }
+
+// VerifStorage returns the message storage.
+func (s *Service) VerifStorage() storage.Storage { return s.storage }
+
+// VerifPubSub returns the pubsub service.
+func (s *Service) VerifPubSub() *pubsub.Service { return s.pubsub }
+
+// VerifPresence returns the presence service.
+func (s *Service) VerifPresence() *presence.Service { return s.presence }
+
+// VerifKeygen returns the key generation service.
+func (s *Service) VerifKeygen() *keygen.Service { return s.keygen }
+
+// VerifConnections returns the open connection counter.
+func (s *Service) VerifConnections() int64 { return atomic.LoadInt64(&s.connections) }
+
+// VerifCounters returns the per-connection subscription counters.
+func (c *Conn) VerifCounters() []message.Counter { return c.subs.VerifDump() }
